@@ -18,9 +18,8 @@ def errStr : Err → String
   | .runtime => "RuntimeError" | .noName => "no-name" | .assertion => "assertion" | .fuel => "model-fuel"
 def gerrStr : GErr → String
   | .noIdentifier => "no-identifier" | .dupLocation => "dup-location" | .dupName => "dup-name"
-  | .assertion => "assertion"
 
-def recToJson (r : Rec) : Json := jArr [jS r.id, jS r.name, jOptS r.orig]
+def recToJson (r : Rec) : Json := jArr [jS r.id, jS r.name, jOptS r.orig, jOptS r.acc]
 def outOfJson (j : Json) : R IdSpec.Out := do
   return ⟨← asChars (← idx j 0), ← asChars (← idx j 1), ← optChars (← idx j 2)⟩
 
@@ -42,7 +41,11 @@ def specOfImpl (allowLong : Bool) (ids : List Str) (impl : Json) : R Json := do
 
 def handleIds (j : Json) : R Json := do
   let allowLong ← boolF j "allow_long"
-  let inp ← listOf (fun p => do return ((← asChars (← idx p 0)), (← asChars (← idx p 1)))) (← fld j "recs")
+  let inp ← listOf (fun p => do
+    let acc ← match (← asArr p)[2]? with
+      | some a => optChars a
+      | none => pure none
+    return ((← asChars (← idx p 0)), (← asChars (← idx p 1)), acc)) (← fld j "recs")
   let model := match preProcessIds allowLong inp with
     | .ok recs => jObj [("recs", jArr (recs.map recToJson))]
     | .error e => jObj [("err", Json.str (errStr e))]
@@ -52,12 +55,23 @@ def handleIds (j : Json) : R Json := do
 def handleFix (j : Json) : R Json := do
   let allowLong ← boolF j "allow_long"
   let r : Rec := ⟨← asChars (← fld j "rid"), ← asChars (← fld j "name"), ← optChars (fldD j "orig" Json.null),
-                  ← natF j "index"⟩
+                  ← natF j "index", ← optChars (fldD j "acc" Json.null)⟩
   let taken ← listOf asChars (← fld j "taken")
   let model := match fixRecordNameId allowLong taken r with
     | .ok (r', t) => jObj [("rec", recToJson r'), ("taken", canonSet t)]
     | .error e => jObj [("err", Json.str (errStr e))]
-  return jObj [("model", model), ("scope", toJson true)]
+  -- the per-call spec on the implementation's result: {"rec": [id, name, orig], "taken": [...]}
+  let implJ := fldD j "impl" Json.null
+  let spec ← match implJ with
+    | .null => pure Json.null
+    | _ => do
+      let o ← outOfJson (← fld implJ "rec")
+      let t' ← listOf asChars (← fld implJ "taken")
+      pure (jObj [("ok", toJson (IdSpec.fixOk allowLong taken r.id r.orig o t')),
+                  ("clean", toJson (IdSpec.fileSafe o.id && IdSpec.fileSafe o.name)),
+                  ("short", toJson (IdSpec.shortEnough allowLong o.id && IdSpec.shortEnough allowLong o.name)),
+                  ("fresh", toJson (o.id == r.id || !taken.contains o.id))])
+  return jObj [("model", model), ("spec", spec), ("scope", toJson true)]
 
 def handleUnique (j : Json) : R Json := do
   let pre ← asChars (← fld j "prefix")
@@ -67,7 +81,10 @@ def handleUnique (j : Json) : R Json := do
   let model := match generateUniqueId pre taken start maxLen with
     | .ok (n, c) => jObj [("name", jS n), ("counter", toJson c)]
     | .error e => jObj [("err", Json.str (errStr e))]
-  return jObj [("model", model), ("scope", toJson true)]
+  let spec ← match fldD j "impl" Json.null with
+    | .null => pure Json.null
+    | i => do pure (jObj [("ok", toJson (IdSpec.uniqueOk taken maxLen (← asChars i)))])
+  return jObj [("model", model), ("spec", spec), ("scope", toJson true)]
 
 structure OpJ where
   kind : String
@@ -75,23 +92,21 @@ structure OpJ where
   locus : Option Str
   gene : Option Str
   protein : Option Str
-  chk : Str
 
 def opOfJson (j : Json) : R OpJ := do
   return ⟨← strF j "op", ← locOfJson (← fld j "loc"), ← optChars (fldD j "locus_tag" Json.null),
-          ← optChars (fldD j "gene" Json.null), ← optChars (fldD j "protein_id" Json.null),
-          ← asChars (fldD j "chk" (Json.str ""))⟩
+          ← optChars (fldD j "gene" Json.null), ← optChars (fldD j "protein_id" Json.null)⟩
 
 def handleGenes (j : Json) : R Json := do
   let ops ← listOf opOfJson (← fld j "ops")
   let gop (op : OpJ) : GOp :=
-    if op.kind == "gene" then .gene (op.locus.getD []) op.loc else .cds op.loc op.locus op.gene op.protein op.chk
+    if op.kind == "gene" then .gene (op.locus.getD []) op.loc else .cds op.loc op.locus op.gene op.protein
   -- the state evolves by the model's `applyOp` (the function the theorems are about); the per-call
   -- outcome is read off `addCds` on the state before the call
   let (_, outs) := ops.foldl (fun (acc : GState × List Json) op =>
     let (s, o) := acc
     let out := if op.kind == "gene" then Json.str "gene"
-      else match addCds s (mkCds op.loc op.locus op.gene op.protein) op.chk with
+      else match addCds s (mkCds op.loc op.locus op.gene op.protein) with
         | .ok (_, n) => jObj [("name", jS n)]
         | .error e => jObj [("err", Json.str (gerrStr e))]
     (applyOp s (gop op), o ++ [out])) (({} : GState), [])
@@ -110,12 +125,35 @@ def handleGenes (j : Json) : R Json := do
                                ("cdss", jArr (st.cdss.map fun c => jArr [jS c.1, locToJson c.2]))]),
                ("spec", spec), ("scope", toJson true)]
 
+def genesSpec (implJ : Json) : R Json :=
+  match implJ with
+  | .null => pure Json.null
+  | _ => do
+    let cdss ← listOf (fun c => do return ((← asChars (← idx c 0)), (← locOfJson (← idx c 1)))) implJ
+    pure (jObj [("names_distinct", toJson (IdSpec.pairwiseDistinct (cdss.map (·.1)))),
+                ("locs_distinct", toJson (IdSpec.pairwiseDistinct (cdss.map (·.2)))),
+                ("safe", toJson (cdss.all fun c => IdSpec.geneSafe c.1)),
+                ("ok", toJson (IdSpec.genesOk cdss))])
+
+def handleBio (j : Json) : R Json := do
+  let feats ← listOf (fun f => do
+    return ({ isCds := ← boolF f "cds", loc := ← locOfJson (← fld f "loc"),
+              locusTag := ← optChars (fldD f "locus_tag" Json.null), gene := ← optChars (fldD f "gene" Json.null),
+              proteinId := ← optChars (fldD f "protein_id" Json.null), pseudo := boolFD f "pseudo" false } : BioFeat))
+    (← fld j "feats")
+  let model := match fromBiopython {} feats with
+    | .ok s => jObj [("cdss", jArr (s.cdss.map fun c => jArr [jS c.1, locToJson c.2])),
+                     ("genes", jArr (s.genes.map fun g => jS g.1))]
+    | .error e => jObj [("err", Json.str (gerrStr e))]
+  return jObj [("model", model), ("spec", ← genesSpec (fldD j "impl" Json.null)), ("scope", toJson true)]
+
 def handle (j : Json) : R Json := do
   match (← strF j "kind") with
   | "ids" => handleIds j
   | "fix" => handleFix j
   | "unique" => handleUnique j
   | "genes" => handleGenes j
+  | "bio" => handleBio j
   | k => throw s!"C16: unknown kind {k}"
 
 end ASV.Drv.C16
